@@ -43,6 +43,7 @@ package upstreamclusteradmission
 //@   modifies *
 //@   ensures [normalized] afterloop(0) ==> len(DP) == len(DP0) && forall k int, l int :: {DP[k].Rules[l]} 0 <= k && k < len(DP) && 0 <= l && l < len(DP0[k].Rules) ==> DP[k].Rules[l] === normalizeRules(DP0[k].Rules[l])
 //@   ensures [lens] afterloop(0) ==> forall k int :: {DP[k]} 0 <= k && k < len(DP) ==> len(DP[k].Rules) == len(DP0[k].Rules)
+//@   ensures [submitted_rules_normalized] afterloop(0) ==> (cluster != nil ==> len(DP0) == old(len(DP)) && forall k int :: {DP0[k]} 0 <= k && k < len(DP0) ==> DP0[k].Rules === old(DP[k].Rules))
 //@   loop 0: invariant [bounds] 0 <= idx && idx <= len(DP) && len(DP) == len(DP0)
 //@   loop 0: invariant [lens] forall k int :: {DP[k]} 0 <= k && k < len(DP) ==> len(DP[k].Rules) == len(DP0[k].Rules)
 //@   loop 0: invariant [done] forall k int, l int :: {DP[k].Rules[l]} 0 <= k && k < idx && 0 <= l && l < len(DP0[k].Rules) ==> DP[k].Rules[l] === normalizeRules(DP0[k].Rules[l])
